@@ -342,10 +342,16 @@ func (update *Update) Prepend(eventlist *EventList) error {
 		SignedAccumulator: update.SignedAccumulator,
 		Events:            update.Events[min:],
 	}
-	n.product = n.Product(n.Events[0].Index)
+	if len(n.Events) > 0 {
+		n.product = n.Product(n.Events[0].Index)
+	} else {
+		// the prepended events cover all of ours
+		n.product = big.NewInt(1)
+	}
 	n.Events = append(eventlist.Events, n.Events...)
 	if eventlist.product != nil {
 		n.product.Mul(n.product, eventlist.product)
+		n.productFrom = n.Events[0].Index
 	} else {
 		n.product = nil
 	}
